@@ -245,9 +245,9 @@ def readVarS (w : Nat) : Prog Int :=
   (gatherVar (varMaxSize w)).bind fun g => .ret (toS w (toU w (unzigzag (varValue g % 2 ^ 64))))
 
 def readFieldBegin (s : CR) : Prog ((TType × Int) × CR) :=
-  readByte.bind fun b =>
-    let delta := b / 16
-    let low := b % 16
+  readByte.bind fun (b : Nat) =>
+    let delta : Nat := b / 16
+    let low : Nat := b % 16
     let s := if low = 1 then { s with pendingBool := some true }
              else if low = 2 then { s with pendingBool := some false } else s
     match ttypeOfCompact low with
@@ -263,7 +263,7 @@ def readFieldBegin (s : CR) : Prog ((TType × Int) × CR) :=
 def readBool (s : CR) : Prog (Bool × CR) :=
   match s.pendingBool with
   | some b => .ret (b, { s with pendingBool := none })
-  | none => readByte.bind fun b =>
+  | none => readByte.bind fun (b : Nat) =>
       if b = 1 then .ret (true, s) else if b = 2 then .ret (false, s) else .fail .invalid
 
 def readSize : Prog Nat := (readVarU 4).bind fun n => .ret (Binary.asUsize (toS 4 n))
@@ -272,7 +272,7 @@ def readSize : Prog Nat := (readVarU 4).bind fun n => .ret (Binary.asUsize (toS 
 def readBytes : Prog Bytes := (readVarU 4).bind fun n => .need n (fun b => .ret b)
 
 def readCollBegin : Prog (TType × Nat) :=
-  readByte.bind fun h =>
+  readByte.bind fun (h : Nat) =>
     match ttypeOfCompact (h % 16) with
     | none => .fail .invalid
     | some et =>
@@ -282,7 +282,7 @@ def readCollBegin : Prog (TType × Nat) :=
 def readMapBegin : Prog (TType × TType × Nat) :=
   (readVarU 4).bind fun n =>
     if toS 4 n = 0 then .ret (.stop, .stop, 0)
-    else readByte.bind fun h =>
+    else readByte.bind fun (h : Nat) =>
       match ttypeOfCompact (h / 16), ttypeOfCompact (h % 16) with
       | some kt, some vt => .ret (kt, vt, Binary.asUsize (toS 4 n))
       | _, _ => .fail .invalid
@@ -293,9 +293,9 @@ def readStructEnd (s : CR) : Prog CR :=
   | l :: st => .ret { s with last := l, stack := st }
 
 def readMessageBegin : Prog (Bytes × Nat × Int) :=
-  readByte.bind fun pid =>
+  readByte.bind fun (pid : Nat) =>
     if pid ≠ 0x82 then .fail .badVersion
-    else readByte.bind fun tv =>
+    else readByte.bind fun (tv : Nat) =>
       if tv % 32 ≠ 1 then .fail .badVersion
       else if tv / 32 < 1 ∨ 4 < tv / 32 then .fail .invalid
       else (readVarU 4).bind fun sq => readBytes.bind fun name => .ret (name, tv / 32, toS 4 sq)
